@@ -184,24 +184,41 @@ def stepW (c : Case) (t : Tuple) (impl : String) : String :=
     let f := field impl p
     !f.startsWith "ok," && !f.endsWith ",same"
   if rejChanged "W" || rejChanged "K" then specViol "a rejected write changed the store (read-back differs)"
-  else if impl != expected then modelDiff expected
   else
-    let okW := (field impl "K").startsWith "ok,"
-    let okC := field impl "C" == "ok"
-    let sp := Spec.Allowed.allowed std0 c.lim c.model t
-    let spApi := Spec.Allowed.allowed std0 apiLimit c.model t
-    -- K path: WriteCommand with limit c.lim against the specification with the same limit
-    if okW && !sp then specViol ("Write accepted " ++ gapReason c.model t)
-    else if !okW && sp then specViol "Write rejected a tuple the model allows"
-    -- contextual path against the specification (limit of the API)
-    else if okC && !spApi then
-      if t.user == t.obj ++ 35 :: t.rel then specViol "the contextual-tuple path accepted a userset that points at the tuple itself (Write rejects it as implicit): F8 contextual tuples skip the write-only checks"
-      else if ctxSize t > apiLimit then specViol "the contextual-tuple path accepted a condition context above the write size limit: F8 contextual tuples skip the write-only checks"
-      else specViol ("the contextual-tuple path accepted " ++ gapReason c.model t)
-    else if !okC && spApi && protoTuple t then specViol "the contextual-tuple path rejected a tuple the model allows"
-    else
-      let k := field impl "K"
-      ok ("w-" ++ (k.splitOn ",").headD "" ) (k != "ok,both" || t.cond.isSome)
+    let sp := Spec.Allowed.allowed std0 c.lim c.model t          -- the property, limit of the command
+    let spApi := Spec.Allowed.allowed std0 apiLimit c.model t    -- the property, limit of the API
+    let mK := writeCheck std0 c.lim c.model t
+    let mW := apiWrite std0 apiLimit c.model t
+    let mC := apiContextual std0 c.model t
+    let isOk := fun (r : R) => match r with | .ok _ => true | .error _ => false
+    -- the implementation against the PROPERTY, path by path; where the model (= the code as written today) agrees with the
+    -- implementation the deviation is one of the recorded findings, otherwise it is new
+    let judge := fun (path : String) (implOk : Bool) (implCls : String) (spec : Bool) (model : R) (reachable : Bool) =>
+      if implOk && !spec then
+        if isOk model then
+          (if path == "contextual" && t.user == t.obj ++ 35 :: t.rel then
+             some "the contextual-tuple path accepted a userset that points at the tuple itself (Write rejects it as implicit): F8 contextual tuples skip the write-only checks"
+           else if path == "contextual" && ctxSize t > apiLimit then
+             some "the contextual-tuple path accepted a condition context above the write size limit: F8 contextual tuples skip the write-only checks"
+           else some (path ++ " accepted " ++ gapReason c.model t))
+        else some (path ++ " accepted a tuple the model does not allow (validation as modelled rejects it: " ++ cls model ++ ")")
+      else if !implOk && spec && reachable then
+        some (path ++ " rejected a tuple the model allows (" ++ implCls ++ ")")
+      else none
+    let fK := field impl "K"
+    let fW := field impl "W"
+    let fC := field impl "C"
+    let fL := field impl "L"
+    let verdicts := [
+      judge "Write" (fK.startsWith "ok,") ((fK.splitOn ",").headD "") sp mK true,
+      judge "Write (API)" (fW.startsWith "ok,") ((fW.splitOn ",").headD "") spApi mW (protoTuple t),
+      judge "contextual" (fC == "ok") fC spApi mC (protoTuple t),
+      judge "contextual" (fL == "ok") fL spApi mC (protoTuple t)]
+    match verdicts.filterMap id with
+    | why :: _ => specViol why
+    | [] =>
+      if impl != expected then modelDiff expected
+      else ok ("w-" ++ (fK.splitOn ",").headD "") (fK != "ok,both" || t.cond.isSome)
 
 def stepD (c : Case) (o r u : Bytes) (impl : String) : String :=
   let v := apiDelete o r u
